@@ -68,7 +68,7 @@ func operandFor(c *worker.Ctx) string {
 	case 5:
 		return locals[c.T.Draw(len(locals))].name
 	default:
-		return []string{"now", "client.ip", "req.restarts", "req.http.X-A", "req.url", "std.atoi(req.http.X-N)", "std.atof(req.http.X-N)", "std.strlen(req.http.X-A)", "time.sub(now, 9999999h)"}[c.T.Draw(9)]
+		return []string{"now", "client.ip", "req.restarts", "req.http.X-A", "req.url", "std.atoi(req.http.X-N)", "std.atof(req.http.X-N)", "std.strlen(req.http.X-A)", "time.sub(now, 9999999h)", "req.http.X-A:a", "req.http.X-A:b", "subfield(req.http.X-A, \"a\", \",\")", "subfield(req.http.X-A, \"a\")", "req.http.Cookie:k"}[c.T.Draw(14)]
 	}
 }
 
@@ -342,7 +342,7 @@ func hostileRequest(c *worker.Ctx, i int) reqSpec {
 		case 2:
 			sp.Header.Set("X-N", boundaryInts[c.T.Draw(len(boundaryInts))])
 		case 3:
-			sp.Header.Set("X-A", strings.Repeat("v", 1+c.T.Draw(70000)))
+			sp.Header.Set("X-A", []string{strings.Repeat("v", 1+c.T.Draw(70000)), strings.Repeat("x", 40), strings.Repeat("x", 25) + "z", `a="`, `b=1, a=" , c=3`, `a=",b=2`, `a=`, `a`, `=`, `a="x`, `a=""`, `;a;=;"`, `a="\"`}[c.T.Draw(13)])
 		case 4:
 			sp.Header["x-lower"] = []string{"a", "b"}
 		case 5:
